@@ -217,7 +217,9 @@ class ModelCacheMixin:
     def split(self):
         results = super().split()
         for r in results:
-            r._models = {m.filter(r.variables) for m in self._models}
+            # adding its constraints to the part may already have given it a model (_trivial_model_optimization) that
+            # the exhausted-value caches rely on: keep it
+            r._models.update(m.filter(r.variables) for m in self._models)
         return results
 
     def combine(self, others):
